@@ -140,13 +140,16 @@ package fasthttp
 //@   ghost hij bool = false
 //@   ghost conc int = 0
 //@   ghost fastErr bool = false
+//@   ghost newFirst bool = false
 //@   on call net.Conn.Close:
 //@     effect closed = closed + 1
 //@   on call Server.setState(_, _, x):
-//@     requires[after-serving] @C14 served
-//@     effect cstate = x; terminals = terminals + 1
+//@     requires[new-before-serving] @C14 (x == StateNew) == !served
+//@     requires[new-is-first] @C14 x == StateNew ==> cstate == -1
+//@     effect cstate = x; terminals = terminals + (x == StateNew ? 0 : 1); newFirst = newFirst || x == StateNew
 //@   on call Server.serveConnCounted -> e:
 //@     requires[slot-held] @C12 conc == 1
+//@     requires[new-reported] @C14 newFirst
 //@     effect served = true; hij = (e == errHijacked)
 //@   on call Server.tryAcquireConcurrency -> ok:
 //@     effect conc = conc + (ok ? 1 : 0)
